@@ -58,6 +58,9 @@ def value_family(name, tokens, rng=None):
             b = t.encode() + bytes(rng.randrange(256) for _ in range([1, 7, 300, 5000][i % 4]))
         elif name == "zeros":
             b = t.encode() + b"\x00" * (10 + i)
+        elif name == "huge":     # values above the 512 KiB buffer-pool limit of the record readers (and one above 1 MiB)
+            n = [600 * 1024, 524288, 524289, 1200000][i % 4]
+            b = (t.encode() + bytes(rng.randrange(256) for _ in range(64)) * (n // 64 + 1))[:n]
         elif name == "varint":   # value lengths at the varint boundaries of the record header
             n = [127, 128, 16383, 16384][i % 4]
             b = (t.encode() + bytes(rng.randrange(256) for _ in range(n)))[:n]
